@@ -901,6 +901,10 @@ func c06PureLookup(r *core.Run, rule string) {
 			return f.String(), true
 		}
 		switch x := v.(type) {
+		case *ssa.FieldAddr: // an array field sliced in place
+			if f, ok := core.FieldOf(x); ok && shared[f.Struct] {
+				return f.String(), true
+			}
 		case *ssa.Slice:
 			return fromShared(x.X, d+1)
 		case *ssa.Phi:
